@@ -442,6 +442,12 @@ func containsSym(v value) bool {
 		}
 	case iface:
 		return containsSym(x.v)
+	case []value:
+		for _, e := range x {
+			if containsSym(e) {
+				return true
+			}
+		}
 	case tuple:
 		for _, e := range x {
 			if containsSym(e) {
